@@ -241,11 +241,13 @@ size_t Decode(const char *base64_ptr, size_t base64_len, void *raw_data_ptr, siz
                 break;
             case 1:
                 out_bytes[w_pos++] |= v >> 4;
-                out_bytes[w_pos] = v << 4;
+                if (w_pos < raw_data_size)  //! 有填充符时，后面已没有字节了，不能越界写
+                    out_bytes[w_pos] = v << 4;
                 break;
             case 2:
                 out_bytes[w_pos++] |= v >> 2;
-                out_bytes[w_pos] = v << 6;
+                if (w_pos < raw_data_size)
+                    out_bytes[w_pos] = v << 6;
                 break;
             case 3:
                 out_bytes[w_pos++] |= v;
